@@ -164,7 +164,7 @@ fn check_names(acc: &mut Acc) {
 fn signature(layered: bool, arith: &str, fam: &[(Small, Vec<Vec<f64>>)]) -> Vec<u64> {
     let mut sig = Vec::new();
     for (m, vecs) in fam {
-        let mut d = dec::direct_build(layered, arith, m.sparse());
+        let mut d = dec::direct_build(layered, arith, m.sparse_var());
         for v in vecs {
             for &l in &LIMITS {
                 let r = guard(|| d.decode(v, l));
@@ -184,14 +184,14 @@ fn check_binding(acc: &mut Acc, extra: &mut serde_json::Map<String, Value>) {
     let a = par_items(&names, |name, a| {
         let (layered, arith) = dec::parse_name(name);
         for (m, vecs) in &fam {
-            let mut f = match dec::factory_build(name, m.sparse()) {
+            let mut f = match dec::factory_build(name, m.sparse_var()) {
                 Ok(f) => f,
                 Err(e) => {
                     a.violate(format!("binding:{}:build", name), e, json!({"kind": "binding", "name": name}));
                     return;
                 }
             };
-            let mut d = dec::direct_build(layered, arith, m.sparse());
+            let mut d = dec::direct_build(layered, arith, m.sparse_var());
             for v in vecs {
                 for &l in &LIMITS {
                     a.evals += 1;
@@ -272,8 +272,8 @@ fn replay_element(v: &Value, acc: &mut Acc) {
             let l = v["limit"].as_u64().unwrap() as usize;
             let (layered, arith) = dec::parse_name(name);
             acc.evals += 1;
-            let rf = guard(|| dec::factory_build(name, m.sparse()).unwrap().decode(&llrs, l));
-            let rd = guard(|| dec::direct_build(layered, arith, m.sparse()).decode(&llrs, l));
+            let rf = guard(|| dec::factory_build(name, m.sparse_var()).unwrap().decode(&llrs, l));
+            let rd = guard(|| dec::direct_build(layered, arith, m.sparse_var()).decode(&llrs, l));
             if rf != rd {
                 acc.violate(format!("binding:{}", name), format!("factory {:?} vs direct {:?}", rf.as_ref().map(dec::show), rd.as_ref().map(dec::show)), v.clone());
             }
